@@ -78,6 +78,19 @@ def _judge_one(rec):
             is_prem = prem[2] > 0 and prem[1] > 0 and prem[0] > 0 and abs(det - math.log2(prem[0] / prem[1])) < 1e-9
             bad.append(("deterministic-accuracy", [lo + TOL, hi - TOL], {"value": det, "stopped_at_estimate": prem},
                         {"premature_exact_repeat": bool(is_prem)}))
+    # conformance (never a verdict): the per-iteration record of the deterministic mode against TLC's exact estimates max W_n / max W_n-1
+    if rec.get("est") and not rec["arcless"]:
+        rp = impl.call(dsw.approximate_capacity, acc, repeats=1, process=True, _budget=600, _alarm=120)
+        if rp["out"] == "ok":
+            try:
+                proc = [float(x) for x in rp["value"][1]]
+                for i, (p_, e_) in enumerate(zip(proc, rec["est"])):
+                    want = math.log2(e_[0] / e_[1]) if e_[0] > 0 and e_[1] > 0 else 0.0
+                    if abs(p_ - want) > 1e-9:
+                        bad.append(("conformance:iteration-record", {"iteration": i + 1, "exact": e_}, p_, {}))
+                        break
+            except Exception:  # noqa
+                bad.append(("conformance:iteration-record", "a list of floats", "unreadable", {}))
     if not numpy.array_equal(acc, keep):
         bad.append(("argument-modified", "unchanged", "changed", {}))
     width = (log2q(rec["hi"]) - log2q(rec["lo"])) if rec["res"] == "certified" and rec["lo"][0] > 0 else None
@@ -149,6 +162,9 @@ def run(ctx):
             if width is not None:
                 widths.append(width)
         for clause, exp, obs, feats in bad:
+            if clause.startswith("conformance:"):
+                ctx.divergence(clause, {"live": rec["live"] if isinstance(rec["live"], list) and len(rec["live"]) <= 16 else "larger", "expected": exp, "observed": obs})
+                continue
             ctx.violation(clause, {"live": rec.get("uniform") or (rec["live"] if len(rec["live"]) <= 16 else "order %d (seeded)" % (len(bin(len(rec["live"]))) // 2 - 1)), "class": rec["res"], "regular": rec["reg"],
                                    "lo": rec["lo"], "hi": rec["hi"]}, exp, impl.jsonable(obs), features=feats)
     widths.sort()
